@@ -35,6 +35,7 @@ def run_model(results):
         for i in part:
             lines.append('reset')
             lines.extend(results[i]['ops'])
+            lines.append('acct')      # delivered / dropped / pending per (label, line): the quantities of C01.reported_hits_exact
             lines.append('clock')     # sentinel: one 'clock N' line closes each case
         out = lean_driver('prof', lines)
         cur, k = [], 0
@@ -98,6 +99,19 @@ def compare_case(r):
                         for l in ls if a.get(k, {}).get(l) != b.get(k, {}).get(l)))
             diffs.append('snapshot %d: %s' % (i, ' ; '.join(det)[:600]))
     return diffs
+
+
+def parse_acct(line):
+    """'acct lab:l,delivered,dropped,pending;...|...' -> {(lab, line): (delivered, dropped, pending)}"""
+    out = {}
+    body = line[5:].strip()
+    for part in (body.split('|') if body else []):
+        lab, _, es = part.partition(':')
+        for e in es.split(';'):
+            if e:
+                l, a, b, c = map(int, e.split(','))
+                out[(int(lab), l)] = (a, b, c)
+    return out
 
 
 def case_digest(case):
